@@ -461,13 +461,39 @@ fn exec(ctx: &Ctx, st: &mut State, toks: &[&str]) -> String {
         ["show", v] => show(st.get(v)),
         ["idx", v, i] => format!("s {}", ctx.render(st.get(v)[parse_nats(i)])),
         ["idxflat", v, i] => format!("s {}", ctx.render(st.get(v)[i.parse::<usize>().unwrap()])),
-        ["eq", a, b] => format!("b {}", b01(st.get(a) == st.get(b))),
+        ["eq", a, b] | ["same", a, b] => format!("b {}", b01(st.get(a) == st.get(b))),
+        ["lin", c, al, a, be, b] => {
+            let (al, be) = (ctx.parse(al), ctx.parse(be));
+            let (gc, ga, gb) = (st.get(c).gradient(), st.get(a).gradient(), st.get(b).gradient());
+            let r = match (&*gc, &*ga, &*gb) {
+                (Some(gc), Some(ga), Some(gb)) => {
+                    let v: Vec<Float> = ga.values().iter().zip(gb.values()).map(|(x, y)| al * x + be * y).collect();
+                    gc.dimensions() == ga.dimensions() && gc.values() == &v[..]
+                }
+                (None, None, None) => true,
+                _ => false,
+            };
+            format!("b {}", b01(r))
+        }
+        ["samegrad", a, b] => {
+            let (ga, gb) = (st.get(a).gradient(), st.get(b).gradient());
+            let r = match (&*ga, &*gb) {
+                (Some(x), Some(y)) => x == y,
+                (None, None) => true,
+                _ => false,
+            };
+            format!("b {}", b01(r))
+        }
         ["probe", v] => {
             let (cnt, pend, tr, keep, kids, rc, _) = st.get(v).verif_probe();
             format!(
                 "probe cnt={} pend={} tr={} keep={} kids={} rc={}",
                 cnt, b01(pend), b01(tr), b01(keep), kids, rc
             )
+        }
+        ["flags", v] => {
+            let (_, _, tr, keep, kids, _, _) = st.get(v).verif_probe();
+            format!("flags tr={} keep={} kids={}", b01(tr), b01(keep), kids)
         }
         ["probekid", v, i] => match st.get(v).verif_kid(i.parse().unwrap()) {
             Some(k) => {
